@@ -110,14 +110,11 @@ Print Assumptions C20_go_call_in_if_exact.
 
 (* ------------------------------------------------------------------ Python *)
 (* 6. EVERY module -- classes and defs nested in each other in any way and to any depth,
-      decorators anywhere -- with one module per import statement, alias-free from-imports,
-      distinct class names, distinct method names per class and distinct module-level function
-      names is listed exactly *)
+      decorators anywhere, the same class, method or function name any number of times (classes
+      local to two methods, getter / setter pairs, redefinitions) -- with one module per import
+      statement and alias-free from-imports is listed exactly *)
 Theorem C20_py_decls_exact : forall m,
     forallb item_ok m = true ->
-    nodup_b (class_names m) = true ->
-    forallb (fun c => nodup_b (map node_name (class_methods c))) (declared_classes m) = true ->
-    nodup_b (func_names m) = true ->
     py_verdict m (py_front m) = [].
 Proof. exact py_decls_exact. Qed.
 Print Assumptions C20_py_decls_exact.
@@ -125,9 +122,6 @@ Print Assumptions C20_py_decls_exact.
 (* 7. whatever the import statements look like, classes, methods, decorators and functions are
       listed exactly *)
 Theorem C20_py_listing_exact : forall m o,
-    nodup_b (class_names m) = true ->
-    forallb (fun c => nodup_b (map node_name (class_methods c))) (declared_classes m) = true ->
-    nodup_b (func_names m) = true ->
     py_front m = POk o ->
     py_classes_ok m o = true /\ py_methods_ok m o = true /\ py_decorators_ok m o = true /\
     py_functions_ok m o = true.
@@ -166,6 +160,25 @@ Example C20_py_local_class_example :
   py_verdict ex_py_local_class (py_front ex_py_local_class) = [].
 Proof. exact py_local_class_example. Qed.
 Print Assumptions C20_py_local_class_example.
+
+(* the same class name twice (classes local to two methods) and the same method name twice in a class
+   (getter / setter): listed exactly; the decider tells the duplicates apart (an output giving both local
+   classes no method, or the setter the getter's decorator, is rejected) *)
+Example C20_py_dups_example :
+  py_front ex_py_dups =
+    POk (mkPFile [] [("L", [], []); ("Base", [], [("run", [])]); ("L", [], [("stop", [])]);
+                     ("Svc", [], [("x", [("property", [])]); ("x", [("x.setter", [])]); ("run", [])])] []) /\
+  py_verdict ex_py_dups (py_front ex_py_dups) = [] /\
+  py_verdict ex_py_dups
+    (POk (mkPFile [] [("L", [], []); ("Base", [], [("run", [])]); ("L", [], []);
+                      ("Svc", [], [("x", [("property", [])]); ("x", [("x.setter", [])]); ("run", [])])] []))
+    = ["py_methods"; "py_decorators"] /\
+  py_verdict ex_py_dups
+    (POk (mkPFile [] [("L", [], []); ("Base", [], [("run", [])]); ("L", [], [("stop", [])]);
+                      ("Svc", [], [("x", [("property", [])]); ("x", [("property", [])]); ("run", [])])] []))
+    = ["py_decorators"].
+Proof. exact py_dups_example. Qed.
+Print Assumptions C20_py_dups_example.
 
 (* ------------------------------------------------------------------ still open *)
 (* 10. a module containing "import a, b" never satisfies the imports clause (D42) *)
